@@ -30,11 +30,12 @@ FUNCTIONS = ["Block.insert_op_before/insert_op_after/add_op/add_ops/insert_ops_b
              "Region.add_block/insert_block/insert_block_before/insert_block_after/detach_block/erase_block/move_blocks/move_blocks_before",
              "IRWithUses.add_use/remove_use", "OpOperands.__setitem__", "Operation.operands setter", "Operation.successors setter / OpSuccessors.__setitem__",
              "Operation.detach/erase/drop_all_references", "SSAValue.replace_all_uses_with/replace_uses_with_if/erase",
-             "Rewriter.erase_op/replace_op/insert_op/inline_block/replace_value_with_new_type/insert_block/inline_region"]
+             "Rewriter.erase_op/replace_op/insert_op/inline_block/replace_value_with_new_type/insert_block/inline_region/move_region_contents_to_new_regions",
+             "Region.drop_all_references / Block.drop_all_references / RegionBlocks and BlockOps iteration (through erase of an op with a two-block region)"]
 ASSUMPTIONS = ["the representation invariant Inv written in vx/checks/c01.py (doubly linked acyclic op/block lists with parent back-pointers; per value/block an acyclic doubly linked use list containing exactly the (op, index) uses whose operand/successor slot targets it; argument/result indices)",
                "extra pre-state assumption (not asserted afterwards): the nesting relation is a forest (ghost depth ranks), so ancestor walks terminate",
                "objects handed to an erase are excluded from the post-state inventory"]
-OUTSIDE = ["Operation.drop_all_references on its own (a helper of erase that deliberately leaves operands without uses)", "the state left behind by a call that raises (the property quantifies over successful edits)", "erasing an op that owns regions (nested erasure)", "inventories larger than the bound", "states with cyclic nesting", "name hints", "PatternRewriter wrappers (C11)"]
+OUTSIDE = ["Operation.drop_all_references on its own (a helper of erase that deliberately leaves operands without uses)", "the state left behind by a call that raises (the property quantifies over successful edits)", "nested erasure beyond the pinned shape of the erase[nested] obligation (an op owning one region of two blocks with one op each; operand wirings and use-list orders symbolic); uses from outside of values defined inside an erased op", "inventories larger than the bound", "states with cyclic nesting", "name hints", "PatternRewriter wrappers (C11)"]
 STUBS = []
 
 NOPS = {"quick": 3, "thorough": 4}
@@ -135,11 +136,11 @@ class Inv:
     def F(objs, name):
         return symheap.field_fn(objs, name)
 
-    def invariant(self, skip_ops=(), extra_blocks=(), extra_values=(), skip_blocks=(), extra_regions=()):
+    def invariant(self, skip_ops=(), extra_blocks=(), extra_values=(), skip_blocks=(), extra_regions=(), skip_regions=()):
         I = as_id
         ops = [o for o in self.ops if not any(o is s for s in skip_ops)]
         blocks = [b for b in self.blocks if not any(b is s for s in skip_blocks)] + list(extra_blocks)
-        regions = list(self.regions) + list(extra_regions)
+        regions = [r for r in self.regions if not any(r is s for s in skip_regions)] + list(extra_regions)
         cs = []
         n = len(self.ops) + 1
         nxt, prv, par = self.F(ops, "_next_op"), self.F(ops, "_prev_op"), self.F(ops, "parent")
@@ -563,6 +564,35 @@ def _(inv):
     inv.new_regions = [nr]
 
 
+@call("erase[nested]", 4)
+def _(inv):
+    """erasing an op whose region holds TWO blocks with ops in each: the tree shape is pinned (assumed), the operand wiring of every op
+    - nested or not - and the order of every use list stay symbolic; everything nested in the erased op is gone afterwards"""
+    op0, op1, op2, op3 = inv.ops[:4]
+    b0, b1, b2 = inv.blocks[:3]
+    r0, r1 = inv.regions[:2]
+    if MODEL is None:
+        ex = cur_ex()
+        for ref, obj in ((op0.parent, b0), (op3.parent, b0), (op2.parent, b1), (op1.parent, b2), (b0.parent, r0), (b1.parent, r1), (b2.parent, r1), (b1._next_block, b2), (op0._next_op, op3)):
+            ex.assume(as_id(ref) == U.id_of(obj))
+        # values defined inside the erased op are not used from outside it (such IR does not verify; with safe_erase=False the caller vouches for it)
+        inner_vals = [*b1.args, *b2.args, *op1.results, *op2.results]
+        for t in op3._operands:
+            for v in inner_vals:
+                ex.assume(as_id(t) != U.id_of(v))
+    how = mchoose(3, "how")
+    inv.erased_ref = op0
+    inv.erased_nested = [op1, op2]
+    inv.erased_blocks = [b1, b2]
+    inv.erased_regions = [r1]
+    if how == 0:
+        Operation.erase(op0, safe_erase=False)
+    elif how == 1:
+        Rewriter.erase_op(op0, safe_erase=False)
+    else:
+        Block.erase_op(b0, op0, safe_erase=False)
+
+
 def cur_ex():
     from vx.symx import Explorer
 
@@ -612,15 +642,16 @@ def obligations(tier):
     return obs
 
 
+NESTED_ERASE = {"erase[nested]"}
 ERASING = {"Block.erase_op", "Operation.drop_all_references", "Operation.erase", "Rewriter.erase_op", "Rewriter.replace_op", "Rewriter.inline_block"}
 USES_CALLS = {"OpOperands.__setitem__", "Operation.operands=", "Operation.successors=", "OpSuccessors.__setitem__", "SSAValue.replace_all_uses_with",
-              "Operation.drop_all_references", "Operation.erase", "Rewriter.erase_op", "Rewriter.replace_op", "Rewriter.inline_block", "Block.erase_op", "Block.erase_arg", "Rewriter.replace_value_with_new_type"}
+              "Operation.drop_all_references", "Operation.erase", "Rewriter.erase_op", "Rewriter.replace_op", "Rewriter.inline_block", "Block.erase_op", "Block.erase_arg", "Rewriter.replace_value_with_new_type", "erase[nested]"}
 
 
 def post_invariant(inv, raised):
     skip = []
     if inv.erased_ref is not None and raised is None:
-        skip = [conc(inv.erased_ref)]
+        skip = [conc(inv.erased_ref)] + list(getattr(inv, "erased_nested", []))
     for nb in inv.new_blocks:
         U.add(nb)
         for a in nb.args:
@@ -645,7 +676,7 @@ def post_invariant(inv, raised):
     new_regions = getattr(inv, "new_regions", [])
     for nr in new_regions:
         U.add(nr)
-    return inv.invariant(skip_ops=skip, extra_blocks=inv.new_blocks, extra_values=extra_values, skip_blocks=skip_blocks, extra_regions=new_regions)
+    return inv.invariant(skip_ops=skip, extra_blocks=inv.new_blocks, extra_values=extra_values, skip_blocks=skip_blocks, extra_regions=new_regions, skip_regions=getattr(inv, "erased_regions", []))
 
 
 ALLOWED = (ValueError, IndexError, AssertionError, StopIteration, KeyError, AttributeError, TypeError, Exception)
@@ -662,11 +693,14 @@ def run(ob, tier, stats, exclude):
         PINS.clear()
         PINS.update(ob.get("pins") or {})
         n_ = nops if not with_uses else min(nops, 3)
+        nb_ = nblocks
+        if name in NESTED_ERASE:
+            n_, nb_ = 4, 3
         if name == "Rewriter.inline_block" and ((ob.get("pins") or {}).get("ip") == 0 or tier == "quick"):
             n_ = 2  # appending a symbolic op list to a symbolic op list: path count explodes at 3 ops (measured > 165 s)
-        inv = Inv(ex, n_, nblocks, 2, with_uses=with_uses, with_succ=with_uses, nesting=name not in ERASING, nargs=3 if name in ("Block.erase_arg", "Block.insert_arg") else 1)
+        inv = Inv(ex, n_, nb_, 2, with_uses=with_uses, with_succ=with_uses and name not in NESTED_ERASE, nesting=name not in ERASING or name in NESTED_ERASE, nargs=3 if name in ("Block.erase_arg", "Block.insert_arg") else 1)
         ex.note("nops", n_)
-        ex.note("nblocks", nblocks)
+        ex.note("nblocks", nb_)
         inv.new_blocks, inv.new_values, inv.erased_ref, inv.erased_values, inv.erased_blocks, inv.new_regions = [], [], None, False, [], []
         ex.assume(inv.invariant())
         raised = None
@@ -710,7 +744,7 @@ def replay(ob, inputs):
     try:
         uses_calls = USES_CALLS
         with_uses = name in uses_calls
-        inv = Inv(None, notes.get("nops", 3), notes.get("nblocks", 2), 2, with_uses=with_uses, with_succ=with_uses, nesting=name not in ERASING, nargs=3 if name in ("Block.erase_arg", "Block.insert_arg") else 1)
+        inv = Inv(None, notes.get("nops", 3), notes.get("nblocks", 2), 2, with_uses=with_uses, with_succ=with_uses and name not in NESTED_ERASE, nesting=name not in ERASING or name in NESTED_ERASE, nargs=3 if name in ("Block.erase_arg", "Block.insert_arg") else 1)
         pre = z3.simplify(inv.invariant())
         if not z3.is_true(pre):
             return {"violates": False, "why": f"model does not satisfy the pre-state invariant concretely: {pre}"}
